@@ -11,11 +11,13 @@ VERIF = os.path.dirname(os.path.dirname(os.path.abspath(__file__)))
 
 INTRO = """### 12.6 Seeded changes: which check catches which change
 
-Two rounds. In each, one fresh sub-agent per property was given only the property text and its own scratch worktree
+Three rounds. In each, one fresh sub-agent per property was given only the property text and its own scratch worktree
 (nothing from /verif) and asked for a realistic change that breaks the property, compiles, passes the 137 tests and
 needs something specific to manifest; in round 2 the agent was additionally told which site round 1 had used and to
 find a different mechanism (preferably an interplay of two features: a cache with a second occurrence, an option with
-a clause, state carried from one root / row / entry to the next). Each kept change
+a clause, state carried from one root / row / entry to the next); in round 3 it was told both earlier sites, that the
+wrongly-keyed-cache idea was used up, and to prefer what a reviewer would wave through (a boundary off by one, a
+condition right for the common case, an error path that skips a later step, a refactoring that changes evaluation order). Each kept change
 (`/verif/seeded/<name>/{patch.diff, demo.sh, NOTES.md, meta.json}`) was verified by me (tests pass with it, `demo.sh`
 exits 1 with it and 0 without), then applied to /repo (`fsv/seedrun.sh`, which also puts the evidence file of the
 unchanged tree back), the quick check run with the pinned regression cases disabled (`FSV_SKIP_PINNED=1`: the verdict
@@ -42,6 +44,19 @@ invocation; they now deliberately put related variants side by side (DESIGN 4, "
 The round-2 C10 agent also reported two panics of the **unchanged** tree that C10's generators had not reached; that
 led to class vi (root options), the exhaustive function x argument enumeration and the `eval_total` fuzz target, which
 found three more (12.2 F41-F45).
+
+Round 3: 20 changes, 10 caught as written (C05, C07, C10, C11, C12, C13, C14, C15, C16, C17), 10 missed and caught
+after strengthening (C01, C02, C03, C04, C06, C08, C09, C18, C19, C20 - see the table). This round's misses are about **the input alphabet**: a backslash or a bracket in a name, a
+letter whose code point ends in the byte of `&`, an extension that looks like a number, a strict operator with a
+wildcard literal, a capability xattr of revision 3, a zip member without any mode (which the harness *believed* it was
+generating - Python's writestr silently substituted 0600), plus two option combinations the property's quantifier lists
+and the checks had left out (`symlinks` x depth window, ignore switch x depth window). Strengthening C08 for its seeded
+change exposed a genuine defect (grouped ORDER BY is not a total order; unsorted rows and a panic: F46), and a side
+remark of the C15 agent another (an integer column compared with `11.6` reads the literal as 0: F47); the C20 extension
+exposed an error in the check's own oracle before it was ever committed (DESIGN 7).
+
+Over the three rounds: 60 changes, 33 caught by the checks as they stood at the time, 27 missed and all 27 caught after
+a generator or oracle extension; no check was loosened, and every extension was re-run on the unchanged tree.
 """
 
 
